@@ -26,23 +26,12 @@ def body_pred(nargs):
     meaningless, but argument references are in range (MacInv) and special
     tokens are table keys"""
     def pred(ex, t):
-        V = tm.special_table()
-        txt = t.fields['txt']
-        iskey = Or(*[sym.seq_eq(txt, k) for k in V])
-        parts = [Implies(tm.cls_is(ex, t, D + 'SpecialToken'), iskey),
-                 Implies(tm.cls_is(ex, t, *tm.NONEMPTY),
-                         zint(tm.tlen(t)) >= 1),
-                 Implies(tm.cls_is(ex, t, *tm.EMPTYCLS),
-                         zint(tm.tlen(t)) == 0),
-                 Implies(tm.cls_is(ex, t, D + 'AccentToken'),
-                         tm.is_accent(txt))]
+        parts = [tm.cls_inv(ex, t)]
         if nargs is not None:
             parts.append(Implies(tm.cls_is(ex, t, D + 'ArgumentToken'),
                                  And(zint(tm.tfield(t, 'arg', 0)) >= 1,
-                                     zint(tm.tfield(t, 'arg', 0)) <= zint(nargs))))
-        else:
-            parts.append(Implies(tm.cls_is(ex, t, D + 'ArgumentToken'),
-                                 zint(tm.tfield(t, 'arg', 0)) >= 0))
+                                     zint(tm.tfield(t, 'arg', 0)) <=
+                                     zint(nargs))))
         return And(*parts)
     return pred
 
@@ -182,7 +171,7 @@ MUTABLE = ('unknowns', 'extracted', 'item_lab_stack', 'the_macros',
 def parser_field_specs(src, flows=None):
     return {
         'unknowns': ListS(StrS(name='unk'), None, 'unknowns'),
-        'extracted': flows or ListS(tm.DocList(src), None, 'extracted'),
+        'extracted': flows or ListS(tm.FinalList(src), None, 'extracted'),
         'item_lab_stack': ListS(TupleS(AnyS('labelgen'), StrS(name='env')),
                                 lambda n: zint(n) >= 1, 'labstack'),
         'the_macros': MacDictS('macro'),
